@@ -1,6 +1,9 @@
 import DeriveExModel.Generated.Tables
 import DeriveExModel.Lemmas.Kinds
 import DeriveExModel.Props.TablesDefs
+import DeriveExModel.Generated.QuoteIdents
+import DeriveExModel.Props.C13Hyg
+import DeriveExModel.Props.C20
 open DX
 
 def attrName : Nat → String
@@ -16,3 +19,24 @@ def main : IO Unit := do
   for (n, p, ms) in Generated.traitTable do
     if modelTraitRow n != some (p, ms) then
       IO.println s!"ROW trait={n} real_path={p} real_methods={ms} model={modelTraitRow n} input: #[derive_ex({n})] struct X(i8);"
+  -- Q: identifiers read off the templates of the source
+  let wh (s : String) : String := ((Generated.quoteWhere.find? (·.1 == s)).map (·.2)).getD "?"
+  for s in Generated.quoteFree do
+    if !litOK s then
+      IO.println s!"QROW a template writes the free identifier `{s}` (first at derive-ex/src/{wh s}): neither keyword, primitive type, `__`-reserved nor block-local"
+  for s in Generated.quoteAbsRoots do
+    if s != "core" then
+      IO.println s!"QROW a template writes an absolute path that starts at `::{s}` (first at derive-ex/src/{wh s}), not at `::core`"
+  for s in Generated.quoteSingles do
+    if !(litOK s || ["debug_struct", "debug_tuple", "derive_ex"].contains s) then
+      IO.println s!"QROW a template consists of the single free identifier `{s}` (first at derive-ex/src/{wh s})"
+  for s in Generated.quoteBinderPrefixes do
+    if !(binderPrefixes.contains s && reserved s) then
+      IO.println s!"QROW per-field binder prefix `{s}` (derive-ex/src/{wh s}) is not one of the model's reserved prefixes"
+  for s in binderPrefixes do
+    if !Generated.quoteBinderPrefixes.contains s then
+      IO.println s!"QROW the model's binder prefix `{s}` no longer occurs in the source"
+  for s in Generated.quoteFormatIdents do
+    if !["{}", "{}Assign", "{}_assign", "{}_{}"].contains s then
+      IO.println s!"QROW an identifier is assembled with the unknown format `{s}`"
+
